@@ -9,8 +9,9 @@ Recognised shapes (nothing else; an unrecognised line inside one of them is repo
 JNA lays a Structure out in `getFieldOrder()` order, so that list - not the declaration order - is
 the member order of the model; a field missing from it (or an unknown name in it) is a problem.
 JNA type table: Byte/Short/Int/Long = signed 8/16/32/64, FFIUint8..64 = unsigned (IntegerType),
-FFISizet/FFIIsizet = size_t/ssize_t, Float/Double, Boolean (marshalled as a C int holding 0/1; treated
-as a bool in argument position, stated assumption), Pointer = untyped pointer.
+FFISizet/FFIIsizet = size_t/ssize_t, Float/Double, Boolean (marshalled as a C int holding 0/1: accepted
+as a bool in argument position, stated assumption; as a *result* it is a 32-bit int, which a C function returning
+`bool` does not define), Pointer = untyped pointer.
 """
 import os
 import re
@@ -25,11 +26,15 @@ SCALARS = {
 }
 
 
-def conv(tname, problems, where):
+def conv(tname, problems, where, position="param"):
     tname = tname.strip()
     nullable = tname.endswith("?")
     if nullable:
         tname = tname[:-1]
+    if tname == "Boolean" and position == "ret":
+        # JNA converts a Boolean *result* from a native `int`: it reads the whole 32-bit return register, of which a
+        # function returning C `bool` defines the low byte only
+        return CType("int", width=32, signed=True, typedef="Boolean")
     if tname in SCALARS:
         k, w, s = SCALARS[tname]
         return CType(k, width=w, signed=s, typedef=tname)
@@ -82,7 +87,7 @@ def parse_text(txt, fname, model, problems):
                     problems.append("%s: unrecognised parameter %r of %s" % (fname, p, sym))
                     continue
                 params.append((pm.group(1), conv(pm.group(2), problems, "%s(%s)" % (sym, pm.group(1)))))
-            model.functions[sym] = {"ret": conv(ret, problems, sym + " return"), "params": params, "file": fname,
+            model.functions[sym] = {"ret": conv(ret, problems, sym + " return", position="ret"), "params": params, "file": fname,
                                     "line": txt[:m.start()].count("\n") + 1}
     # structures and unions
     for m in re.finditer(r"class\s+(\w+)\s*:\s*(Structure\(\)\s*,\s*Structure\.ByValue|Union\(\))\s*\{", txt):
